@@ -33,8 +33,20 @@ def build_model(F_):
                         PS + "::TypedArray": ("TypedArray", "allowed", "values"),
                         PS + "::VoidUndefined": ("VoidUndefined", "allowed", "values")}
     m.bool_variant = PS + "::Boolean"
-    m.vec_ops = {"subtyping::subtype::sub_vec_union": "union", "subtyping::subtype::sub_vec_intersect": "intersect",
-                 "subtyping::subtype::sub_vec_diff": "diff"}
+    # the three primitives on sorted value lists (trusted, see DESIGN): located by signature - two lists of the same
+    # element type in, a list out, in the engine - and told apart by the operation their name carries, wherever a
+    # refactoring has moved them (a submodule) or whatever prefix it gave them
+    m.vec_ops = {}
+    for g, f in F_.fns.items():
+        ins = f.inputs or []
+        if "/src/subtyping/" in (f.file or "") and len(ins) == 2 and ins[0] == ins[1] and re.match(r"^&(\[|std::vec::Vec<)", ins[0]) and "Vec<" in (f.output or ""):
+            nm = g.rsplit("::", 1)[-1].lower()
+            for op in ("union", "intersect", "diff"):
+                if op in nm:
+                    m.vec_ops[g] = op
+    if len(set(m.vec_ops.values())) < 3:
+        m.vec_ops.update({"subtyping::subtype::sub_vec_union": "union", "subtyping::subtype::sub_vec_intersect": "intersect",
+                          "subtyping::subtype::sub_vec_diff": "diff"})
     m.tag_enum_prefix = "subtyping::subtype::SubTypeTag::"
     # comparison wrappers, by role: functions of the diagram module that answer an Ordering
     m.cmp_fns = {g for g, f in F_.fns.items() if (f.file or "").endswith("subtyping/bdd.rs") and (f.output or "").endswith("cmp::Ordering")} | {"subtyping::bdd::atom_cmp"}
